@@ -125,8 +125,11 @@ Shadowing(H) == \E m \in Meths, p \in PathsOf(H, 1) :
 (* Interfaces.                                                                  *)
 IFaces == {"IM", "IN", "IMN"}                          \* interpreted
 HFaces == {"Stringer", "error", "Sort", "Writer"}      \* fmt.Stringer, error, sort.Interface, io.Writer
-IMeths(I) == CASE I \in {"IM", "Stringer", "Sort"} -> {"M"}
-               [] I \in {"IN", "error", "Writer"}  -> {"N"}
+\* ("IA" {Acc(int) int} and "IB" {Bcc(int) int}: a face with an argument and a result of M resp. N,
+\* used by the nested calls of family G)
+XFaces == {"IA", "IB"}
+IMeths(I) == CASE I \in {"IM", "Stringer", "Sort", "IA"} -> {"M"}
+               [] I \in {"IN", "error", "Writer", "IB"}  -> {"N"}
                [] I = "IMN"                         -> {"M", "N"}
                [] OTHER                             -> {}          \* "E": interface{}
 \* what the rendered program calls on a value of interface type I: <<abstract method, face>>
@@ -210,8 +213,8 @@ FactsAll(H) == [j \in 1..H.n |-> FactsR(H, j)]
 Ext(H) == [n |-> H.n, emb |-> H.emb, meth |-> H.meth,
            mst  |-> [j \in 1..H.n |-> MethodSet(H, j, FALSE)],
            mspt |-> [j \in 1..H.n |-> MethodSet(H, j, TRUE)],
-           imp  |-> [a \in BOOLEAN |-> {I \in IFaces \cup HFaces \cup {"E"} : Implements(H, 1, a, I)}],
-           impj |-> [j \in 1..H.n |-> [a \in BOOLEAN |-> {I \in IFaces \cup HFaces \cup {"E"} : Implements(H, j, a, I)}]],
+           imp  |-> [a \in BOOLEAN |-> {I \in IFaces \cup HFaces \cup XFaces \cup {"E"} : Implements(H, 1, a, I)}],
+           impj |-> [j \in 1..H.n |-> [a \in BOOLEAN |-> {I \in IFaces \cup HFaces \cup XFaces \cup {"E"} : Implements(H, j, a, I)}]],
            \* the facts about every root type (shared-site forms, classes)
            fj   |-> FactsAll(H),
            \* receiver kind of the method that Tj.m denotes
@@ -512,6 +515,41 @@ SharedForms(H, F1) ==
        \o Flat([i \in 1..6 |-> callSite(IOrd[((i - 1) \div 2) + 1], O2[((i - 1) % 2) + 1])])
 
 -------------------------------------------------------------------------------
+(* G. one interface method bound on two receivers.  The object a is v (a T1,   *)
+(* mutated: counters >= 110), the object b is a fresh w of type T1 or of any   *)
+(* Tj from which the selector denotes the SAME method declaration (counters    *)
+(* < 100); both are held by interface values i, j of one interface type.  The  *)
+(* second binding is placed between the first binding and its call:            *)
+(*   nest   : r := i.Acc(j.Acc(1))        (j's call runs first, then i's)      *)
+(*   mvpair : h := i.M; k := j.M; h(); k()                                     *)
+(*   mvcall : h := i.M; j.M(); h()                                             *)
+(* Each call runs on the dynamic value of ITS interface value: the prediction  *)
+(* is made of the per-object states (InvOwnReceiver).                          *)
+TwoKinds == {"nest", "mvpair", "mvcall"}
+TwoRecvForms(H, F1) ==
+    LET FJ == H.fj
+        one(kind, m, da, j, db) ==
+            LET I    == IF kind = "nest" THEN (IF m = "M" THEN "IA" ELSE "IB") ELSE (IF m = "M" THEN "IM" ELSE "IN")
+                face == IF kind = "nest" THEN (IF m = "M" THEN "Acc" ELSE "Bcc") ELSE m
+            IN IF ~(ImplD(H, da, I) /\ ImplJ(H, j, db, I) /\ FJ[j].def[m] = F1.def[m]) THEN <<>>
+               ELSE LET Fb == FJ[j]
+                        ha == Held(F1, da, FALSE, FALSE)
+                        sa == Call(F1, ha.st, ha.inst, <<m, face>>)
+                        hb == Capture(Fb, Fresh(Fb), db)
+                        sb == Call(Fb, hb.st, hb.inst, <<m, face>>)
+                        b  == [Base EXCEPT !.k = kind, !.s = I, !.m = m, !.d = da, !.t = db, !.j = j,
+                                           !.ft = Feat(F1, {m}, da) \cup Feat(Fb, {m}, db)]
+                    IN <<[b EXCEPT !.r = "ok",
+                                   !.log = IF kind = "mvpair" THEN <<sa.log[1], sb.log[1]>> ELSE <<sb.log[1], sa.log[1]>>,
+                                   !.fin = Cells(F1, sa, Ident(F1)), !.aux = Cells(Fb, sb, Ident(Fb))]>>
+        KO == <<"nest", "mvpair", "mvcall">>
+    IN Flat([i \in 1..(3 * 2 * 2) |->
+              LET kind == KO[((i - 1) \div 4) + 1]
+                  m    == MOrd[(((i - 1) \div 2) % 2) + 1]
+                  da   == DOrd[((i - 1) % 2) + 1]
+              IN Flat([u \in 1..(2 * H.n) |-> one(kind, m, da, ((u - 1) \div 2) + 1, DOrd[((u - 1) % 2) + 1])])])
+
+-------------------------------------------------------------------------------
 (* Classes of forms on which the unchanged interpreter is known to deviate     *)
 (* (/verif/known-findings.json, one class per root cause).  The class of a     *)
 (* form is computed from the model-level case only; it is the trigger part of  *)
@@ -533,44 +571,38 @@ IdFrom(j, d, cl, k) ==
     ELSE IdFrom(j, d, cl, k + 1)
 HasCase(f, S) == \E u \in 1..Len(f.cl) : \E w \in 1..Len(f.cl[u]) : f.cl[u][w] \in S
 
-\* F-C05-1 (DESIGN 5.11): interface targets are decided from method NAMES / type identity,
-\* not from the method set of the dynamic type
-Excluded_F_C05_1(F, f) ==
-    \/ /\ IsAssert(f) /\ f.s \in IFaces /\ f.d = "val" /\ f.t \in IFaces \cup HFaces
-       /\ ~OkExpected(f) /\ NameOK(F, f.t)
-    \/ /\ IsSwitch(f) /\ f.s \in IFaces /\ f.d # "nil"
-       /\ f.r # (LET b == IdFrom(f.j, f.d, f.cl, 1) IN IF b = 0 THEN "def" ELSE ToString(f.lb[b]))
-\* F-C05-2: nil interface values in two-result assertions and in type switches
+\* F-C05-1 (DESIGN 5.11: interface targets decided from method NAMES / type identity) is REPAIRED in /repo
+\* (6be2139 "type switch on interpreter values with methods, and on interfaces", fb73092 "use the Go
+\* method set of the dynamic type in type switches", which also gave typeAssert dynMethods()): the
+\* exclusion is lifted, its forms are generated by every tier again.
+IdBranch(f) == LET b == IdFrom(f.j, f.d, f.cl, 1) IN IF b = 0 THEN "def" ELSE ToString(f.lb[b])
+\* T1 (resp. *T1 for d = "ptr") declares no method of its own that the dynamic type has
+NoDirect(F, d) == ~\E m \in Meths : F.found[m] /\ F.depth[m] = 0 /\ (d = "val" \/ F.rk[m] = "ptr")
+\* F-C05-2: a nil value of an interpreted interface type in a two-result assertion to an interpreted
+\* or empty interface type (the other nil cases were repaired: cedeaa8, 6be2139)
 Excluded_F_C05_2(F, f) ==
-    \/ /\ f.k \in {"assert2", "assert2c", "sassert2"} /\ f.d = "nil"
-       /\ \/ f.s \in {"E", "error", "Stringer"} /\ f.t \in HFaces
-          \/ f.s \in IFaces /\ IsI(f.t)
-    \/ /\ IsSwitch(f) /\ f.d = "nil"
-       /\ \/ f.s \in IFaces /\ HasCase(f, {"nil"})
-          \/ f.s = "E" /\ f.m = "bind" /\ HasCase(f, {"E"})
-          \/ HostSrc(f) /\ f.m = "bind" /\ HasCase(f, HFaces)
-\* F-C05-3: interface{} source holding an interpreted struct or pointer: assertions to
-\* interface types and type switches
+    f.k \in {"assert2", "assert2c", "sassert2"} /\ f.d = "nil" /\ f.s \in IFaces /\ f.t \in IFaces \cup {"E"}
+\* F-C05-3: interface{} source holding an interpreted struct or pointer: successful assertions to
+\* an interpreted interface type; to a host or empty interface type, and interface clauses of a type
+\* switch, when the dynamic type declares no method of its own
 Excluded_F_C05_3(F, f) ==
-    \/ /\ IsAssert(f) /\ f.s = "E" /\ f.d # "nil"
-       /\ \/ f.t \in IFaces /\ NameOK(F, f.t) /\ (OkExpected(f) \/ f.k \notin {"assert1", "sassert1"})
-          \/ f.t \in HFaces /\ (OkExpected(f) \/ f.d = "val")
-          \/ f.t = "E" /\ ~\E m \in Meths : F.found[m] /\ F.depth[m] = 0 /\ (f.d = "val" \/ F.rk[m] = "ptr")
-    \/ IsSwitch(f) /\ f.s = "E" /\ f.d # "nil"
+    \/ /\ IsAssert(f) /\ f.s = "E" /\ f.d # "nil" /\ OkExpected(f)
+       /\ \/ f.t \in IFaces
+          \/ f.t \in HFaces \cup {"E"} /\ NoDirect(F, f.d)
+    \/ IsSwitch(f) /\ f.s = "E" /\ f.d # "nil" /\ NoDirect(F, f.d) /\ f.r # IdBranch(f)
 \* F-C05-4: source of a host interface type (error, fmt.Stringer) holding an interpreted value
 Excluded_F_C05_4(F, f) ==
     \/ /\ IsAssert(f) /\ HostSrc(f) /\ f.d # "nil"
        /\ \/ OkExpected(f) /\ f.t # f.s /\ f.t # PName[f.j]
           \/ ~OkExpected(f) /\ f.d = "val" /\ (IsT(f.t) \/ IsPT(f.t)) /\ TIdx(f.t) # f.j
-    \/ IsSwitch(f) /\ HostSrc(f) /\ f.d # "nil"
+    \/ IsSwitch(f) /\ HostSrc(f) /\ f.d # "nil" /\ (f.d = "val" \/ f.r # IdBranch(f))
 \* F-C05-5: x.(Tj) rejected as impossible although Tj has the pointer-receiver method through an embedded pointer
 Excluded_F_C05_5(X, f) ==
     IsAssert(f) /\ f.s # "E" /\ IsT(f.t) /\ \E m \in IMeths(f.s) : X.rkj[TIdx(f.t)][m] = "ptr"
-\* F-C05-6: a struct value held by an interface value or by a method value with a value
-\* receiver is not a copy (class computed by Late: the form can tell a copy from an alias)
-\* (calls and method values through an INTERPRETED interface value were repaired in /repo by "fix: an
-\* interface value holds a copy of a struct or array": icallc / imvalc are checked again)
-Excluded_F_C05_6(F, f) == f.x = "copy" /\ f.k \notin {"icallc", "imvalc"}
+\* F-C05-6: a struct value held by a variable of HOST interface type is not a copy (class computed by
+\* Late: the form can tell a copy from an alias).  Repaired meanwhile and no longer in the class:
+\* interpreted interface values (0d506cc), method values with a value receiver (87372ef, d6a0baa)
+Excluded_F_C05_6(F, f) == f.x = "copy" /\ (f.k = "hcallc" \/ (f.k = "assert2c" /\ f.t \in HFaces))
 \* F-C05-7: method expressions other than a direct call of T.m declared on T itself with that receiver kind
 Excluded_F_C05_7(F, f) ==
     \/ f.k \in {"mexpvf", "mexppf"}
@@ -589,6 +621,7 @@ RelM(f) == ({f.m} \cap Meths) \cup IMeths(f.s) \cup IMeths(f.t)
            \cup (IF f.k \in {"sprint", "errorf", "sprinti", "fprint", "sort"} THEN Meths ELSE {})
 Excluded_F_C05_9(FJ, f) ==
     \/ \E m \in RelM(f) : FJ[f.j].dfs[m]
+    \/ f.k \in TwoKinds /\ FJ[1].dfs[f.m]
     \* (the static check of x.(Tk) looks the methods of x's type up from Tk)
     \/ (IsT(f.t) \/ IsPT(f.t)) /\ \E m \in IMeths(f.s) : FJ[TIdx(f.t)].dfs[m]
 
@@ -596,7 +629,7 @@ Excluded_F_C05_9(FJ, f) ==
 \* in ANOTHER function (the shared-site helpers take it as a parameter): the wrapper is built by
 \* re-evaluating, in the current frame, the node that created the value
 Excluded_F_C05_10(F, f) ==
-    f.k \in {"sassert1", "sassert2"} /\ f.s \in IFaces /\ f.t \in HFaces /\ f.d # "nil" /\ OkExpected(f)
+    f.k \in {"sassert1", "sassert2"} /\ f.s \in IFaces \cup {"E"} /\ f.t \in HFaces /\ f.d # "nil" /\ OkExpected(f)
 
 Class(X, FJ, f) ==
     LET F == FJ[f.j] IN
@@ -604,11 +637,10 @@ Class(X, FJ, f) ==
       [] Excluded_F_C05_2(F, f) -> "F-C05-2 nil interface value in a two-result assertion or type switch"
       [] Excluded_F_C05_4(F, f) -> "F-C05-4 assertion or type switch on a value of host interface type (error, fmt.Stringer) holding an interpreted value"
       [] Excluded_F_C05_3(F, f) -> "F-C05-3 assertion to an interface type or type switch on an interface{} holding an interpreted struct or pointer"
-      [] Excluded_F_C05_1(F, f) -> "F-C05-1 interface target decided by method names or type identity instead of the method set"
       [] Excluded_F_C05_6(F, f) -> "F-C05-6 struct value held by an interface or method value, variable mutated afterwards"
       [] Excluded_F_C05_7(F, f) -> "F-C05-7 method expression of a promoted method, of a value method through *T, or used as a function value"
       [] Excluded_F_C05_8(F, f) -> "F-C05-8 interpreted value with Error/String/Write methods passed to a fmt function"
-      [] Excluded_F_C05_10(F, f) -> "F-C05-10 assertion to a host interface type of an interpreted-interface value received as a parameter"
+      [] Excluded_F_C05_10(F, f) -> "F-C05-10 assertion to a host interface type of an interface value received as a parameter"
       [] Excluded_F_C05_9(FJ, f) -> "F-C05-9 method also declared deeper below an earlier embedded field (depth-first lookup)"
       [] OTHER -> ""
 
@@ -623,7 +655,7 @@ AllForms(H) ==
     LET F == Facts(H)
         X == Ext(H) IN
     Classify(X, X.fj, StaticForms(X, F) \o IfaceForms(X, F) \o AssertForms(X, F) \o SwitchForms(X, F) \o HostForms(X, F)
-                             \o UnlistedShared(X, F))
+                             \o UnlistedShared(X, F) \o TwoRecvForms(X, F))
 
 -------------------------------------------------------------------------------
 VARIABLES h, phase, forms
@@ -657,8 +689,9 @@ GenIface  == Step("iface",  "assert", IfaceForms)
 GenAssert == Step("assert", "switch", AssertForms)
 GenSwitch == Step("switch", "host",   SwitchForms)
 GenHost   == Step("host",   "shared", HostForms)
-GenShared == Step("shared", "done",   UnlistedShared)
-Next == GenStatic \/ GenIface \/ GenAssert \/ GenSwitch \/ GenHost \/ GenShared
+GenShared == Step("shared", "two",    UnlistedShared)
+GenTwo    == Step("two",    "done",   TwoRecvForms)
+Next == GenStatic \/ GenIface \/ GenAssert \/ GenSwitch \/ GenHost \/ GenShared \/ GenTwo
 Spec == Init /\ [][Next]_vars
 
 \* seeded simulation: MaxN types, at most two embedded types per struct, shadowing
@@ -713,6 +746,17 @@ InvSwitchFirst ==
 \* value) has the same outcome, and the shared sites invoke the same methods
 BaseKind(k) == CASE k \in {"assert1", "sassert1"} -> "a1" [] k \in {"assert2", "sassert2"} -> "a2"
                  [] k \in {"switch", "sswitch"} -> "sw" [] k \in {"icall", "scall"} -> "c" [] OTHER -> k
+\* a call through an interface value, and a method value taken from one, run on the dynamic value
+\* of THAT interface value whatever was bound in between: in the forms of family G the entry of the
+\* mutated object a shows a counter >= 100, the entry of the fresh object b a counter < 100, in the
+\* order of the calls
+InvOwnReceiver ==
+    phase = "done" =>
+    \A k \in 1..Len(forms) :
+       LET f == forms[k] IN
+       f.k \in TwoKinds =>
+          /\ Len(f.log) = 2
+          /\ LET ia == IF f.k = "mvpair" THEN 1 ELSE 2 IN f.log[ia].c >= 100 /\ f.log[3 - ia].c < 100
 InvSiteHistoryFree ==
     phase = "done" =>
     LET sh  == {k \in 1..Len(forms) : forms[k].o # ""}
